@@ -107,7 +107,9 @@ SCRIPT_ALPHA = [_tk("d5"), _tk("d3"), _tk("t2"), _tk("o3"), _tk("z"), _tk("h"), 
                 # slow words: they last longer than the pause threshold, so "separated from the previous token" differs from
                 # "separated from the token before the previous one"
                 _tk("and", dur=150), _tk("pt", dur=150), _tk("cj", dur=150), _tk("lk", dur=150),
-                _tk("e1"), _tk("e1", gap=1)]
+                _tk("e1"), _tk("e1", gap=1),
+                # tokens with an empty text (a recogniser's silence marker), with and without the hint
+                _tk(""), _tk("", nan=1), _tk("", gap=1)]
 
 
 def render_tokens(specs):
@@ -176,7 +178,9 @@ def s_tok(tier, seed, out):
 
 # ordinary (non-number) context words; the tail of each list holds awkward ones: digit-leading words (letters after a
 # digit), and compounds made only of zero words (the interpreter's sub-group is then all leading zeros, empty buffer)
-_ODD = ["2nd", "3D", "4x4", "5kg", "10h", "s", "e", "ss", "7", "34", "2023", "12-34"]
+_ODD = ["2nd", "3D", "4x4", "5kg", "10h", "s", "e", "ss", "7", "34", "2023", "12-34",
+        # numerals that are not ASCII digits (Unicode No / Nl / Nd): words like any other for the isolation rule
+        "\u00bd", "\u00b2", "\u2460", "\u0663", "7\u00bd", "\u2167", "\u0967\u0968"]
 _SEPWORDS = ["point", "virgule", "coma", "vírgula", "virgola", "komma"]
 ORDINARY = {
     "en": ["cat", "dogs", "the", "house", "went", "Oscar", "s", "c"] + _ODD + ["zero-zero", "o-o", "nought-zero"],
@@ -193,10 +197,13 @@ _APOS = {"en": ["it's", "dog's", "o'clock"], "fr": ["l'eau", "l'ami", "d'accord"
          "pt": ["d'água"], "it": ["l'anno", "dell'anno", "un'ora"], "de": ["geht's"], "nl": ["'s", "zo'n"]}
 for _l in ORDINARY:
     ORDINARY[_l] += _APOS[_l]
+    # the same words typed with the typographic apostrophe (the tokenizer knows only the ASCII one)
+    ORDINARY[_l] += [w.replace("'", "\u2019") for w in _APOS[_l][:2]]
 _OWN = {"en": ["point"], "fr": ["virgule"], "es": ["coma"], "pt": ["vírgula"], "it": ["virgola"], "de": ["komma"], "nl": ["komma"]}
 for _l in ORDINARY:
     ORDINARY[_l] += [w for w in _SEPWORDS if w not in _OWN[_l]]
-SEPS = [" ", " ", " ", ", ", ". ", "; ", ": ", " - ", "-", " ", "  ", "\t", " . ", "! ", "? ", " (", ") ", "\n", ".", "\u00ad", " \u200b", "\ufeff ", "\u2060", "\u2010", "\u2011", "\u2013", "\u2014", "\u00b7", "\u2027", "/", "\u2026", " \u2013 ", "\u0001", " \u0000 ", "\u001f", "\u0008 "]
+SEPS = [" ", " ", " ", ", ", ". ", "; ", ": ", " - ", "-", " ", "  ", "\t", " . ", "! ", "? ", " (", ") ", "\n", ".", "\u00ad", " \u200b", "\ufeff ", "\u2060", "\u2010", "\u2011", "\u2013", "\u2014", "\u00b7", "\u2027", "/", "\u2026", " \u2013 ", "\u0001", " \u0000 ", "\u001f", "\u0008 ",
+        "\u2019", " \u2018", "\u201d ", " \u201c", " \u00ab\u00a0", "\u00a0\u00bb ", "\u2032"]
 DECSEP = {"en": "point", "fr": "virgule", "es": "coma", "pt": "vírgula", "it": "virgola", "de": "Komma", "nl": "komma"}
 
 _bank_cache = {}
